@@ -51,6 +51,9 @@ type vfs struct {
 	// one-shot storage faults armed by the harness for exactly one operation
 	failSave   atomic.Value  // "", "ck" (checkpoints file), "wal", "sst": the next Save of such a file returns an error
 	failDelete atomic.Bool   // the next Delete returns an error
+	gateCk     atomic.Bool   // the next Save of the checkpoints file parks inside the commit until gateRel is closed
+	gateArr    chan struct{}
+	gateRel    chan struct{}
 	failWrite  atomic.Int64  // k+1: the k-th Write (from 0) on the next *.wal file that is written returns an error; 0 = off
 	fired      chan struct{} // receives one token when an armed fault has been delivered
 }
@@ -85,7 +88,7 @@ func (v *vfs) disarm() {
 }
 
 func newVFS(root, grave, inner, void *storage.MemoryFilesystem, log *fsLog) *vfs {
-	v := &vfs{root: root, grave: grave, inner: inner, void: void, log: log, dead: &atomic.Bool{}, fired: make(chan struct{}, 4)}
+	v := &vfs{root: root, grave: grave, inner: inner, void: void, log: log, dead: &atomic.Bool{}, fired: make(chan struct{}, 4), gateArr: make(chan struct{}, 1)}
 	v.failSave.Store("")
 	return v
 }
@@ -151,6 +154,11 @@ func (f *vfile) Save() error {
 		f.neverSaved = true
 		f.v.fired <- struct{}{}
 		return errInjected
+	}
+	if kindOf(f.File.URI()) == "ck" && f.v.gateCk.CompareAndSwap(true, false) {
+		rel := f.v.gateRel
+		f.v.gateArr <- struct{}{}
+		<-rel
 	}
 	err := f.File.Save()
 	if err == nil {
